@@ -16,6 +16,12 @@ R27d the periodic producer keeps buffering while disconnected: buffer_messages p
      message it builds into the buffer.
 R27e the gathered posts of a batch are awaited to completion: not under asyncio.wait_for / timeout (which cancel what is still
      pending after the messages have left the buffer), unless _post_async puts the message back when it is cancelled.
+R27f every close of the connection is a network failure: the runner reconnects (and buffers) only on ProtocolNetworkException. In
+     EngineDispatcher.send_async the handler that maps to it names the websockets base class `ConnectionClosed` - or both of its
+     subclasses ConnectionClosedOK and ConnectionClosedError (library fact, stated as an assumption) - and lies before the
+     catch-all that answers with an ErrorMessage. With ConnectionClosedError alone a normal close by the aggregator (code 1000: its
+     shutdown, a refused connection, the error branch of rpc_call) falls into the catch-all: the runner stays Connected, never
+     reconnects, and every later message is dropped with nothing buffered.
 Does not decide delivery order or duplication under all interleavings.
 """
 from __future__ import annotations
@@ -36,7 +42,7 @@ JUSTIFIED_STATES = {
 }
 
 
-def run(ctx) -> None:
+def _run_main(ctx) -> None:
     prog = ctx.prog
     for r, d in [("R27a", "single guarded writer of sequence_number; both send paths assign"), ("R27b", "_post_async exhaustive over RecoverState"),
                  ("R27c", "Reconnected only with empty buffer; buffered messages leave only when posted"), ("R27d", "producer buffers while disconnected")]:
@@ -252,3 +258,45 @@ def run(ctx) -> None:
             ctx.fail("R27d", bl, lp.ast, inst, "tag data produced while disconnected is dropped", p)
     else:
         raise AnchorError("buffer_messages: message loop not found")
+
+
+def _r27f(ctx) -> None:
+    prog = ctx.prog
+    ctx.rule("R27f", "a normal close of the websocket is treated like an abnormal one")
+    f = prog.func("openpectus.protocol.engine_dispatcher:EngineDispatcher.send_async")
+    ctx.analysed(f)
+    trys = [t for t in walk_no_nested(f.node) if isinstance(t, ast.Try) and any(
+        isinstance(c, ast.Call) and "dispatch_message_async" in norm(c.func) for st in t.body for c in ast.walk(st))]
+    if not trys:
+        raise AnchorError("send_async: the try around the rpc call was not found")
+    t = trys[0]
+    inst = "send_async: ConnectionClosedOK and ConnectionClosedError both map to ProtocolNetworkException"
+    covered: set = set()
+    before_catch_all = True
+    for h in t.handlers:
+        names = [] if h.type is None else ([h.type] if not isinstance(h.type, ast.Tuple) else list(h.type.elts))
+        nm = {norm(n).split(".")[-1] for n in names}
+        raises_net = any(isinstance(x, ast.Raise) and x.exc is not None and "ProtocolNetworkException" in norm(x.exc) for st in h.body for x in ast.walk(st))
+        if h.type is None or nm & {"Exception", "BaseException"}:
+            if not raises_net:
+                before_catch_all = False
+                break
+            covered |= {"ConnectionClosedOK", "ConnectionClosedError"}
+            continue
+        if raises_net:
+            if nm & {"ConnectionClosed", "WebSocketException"}:
+                covered |= {"ConnectionClosedOK", "ConnectionClosedError"}
+            covered |= nm & {"ConnectionClosedOK", "ConnectionClosedError"}
+    if {"ConnectionClosedOK", "ConnectionClosedError"} <= covered:
+        ctx.ok("R27f", inst, {"rule": "R27f", "assumption": "websockets.exceptions: ConnectionClosedOK and ConnectionClosedError are the subclasses of ConnectionClosed"})
+    else:
+        missing = sorted({"ConnectionClosedOK", "ConnectionClosedError"} - covered)
+        ctx.fail("R27f", f, t.handlers[0], inst, f"{missing} is not mapped to ProtocolNetworkException and falls into the catch-all that returns an "
+                 "ErrorMessage: when the aggregator closes the channel with code 1000 (its shutdown, a refused connection, the error branch of "
+                 "rpc_call after an rpc timeout) the runner stays Connected, never reconnects, and every later message is dropped with nothing "
+                 "buffered")
+
+
+def run(ctx) -> None:
+    _run_main(ctx)
+    _r27f(ctx)
